@@ -484,12 +484,14 @@ _BATCH = {2: [], 3: [5], 4: [5, 6]}
 
 
 def _perms(rank):
-    if rank == 2:
-        return ["none", "noattr", [1, 0]]
-    if rank == 3:
-        return ["none", "noattr", [0, 2, 1], [1, 2, 0], [2, 0, 1], [1, 0, 2], [2, 1, 0]]
-    return ["none", "noattr", [0, 1, 3, 2], [1, 2, 3, 0], [3, 0, 1, 2], [1, 2, 0, 3], [2, 0, 1, 3], [3, 1, 2, 0],
-            [0, 2, 1, 3]]
+    # every permutation of the rank (not a hand-picked subset: a seeded defect needed [1, 0, 3, 2]); the
+    # historically "relevant" ones first so that counterexamples stay short
+    import itertools
+    first = {2: [[1, 0]],
+             3: [[0, 2, 1], [1, 2, 0], [2, 0, 1], [1, 0, 2], [2, 1, 0]],
+             4: [[0, 1, 3, 2], [1, 2, 3, 0], [3, 0, 1, 2], [1, 2, 0, 3], [2, 0, 1, 3], [3, 1, 2, 0], [0, 2, 1, 3]]}[rank]
+    rest = [list(p) for p in itertools.permutations(range(rank)) if list(p) not in first]
+    return ["none", "noattr"] + first + rest
 
 
 FMM_ATTRS = ["MatMul", {}, {"alpha": 0.5}, {"transA": 1}, {"transB": 1}, {"transA": 1, "transB": 1},
